@@ -258,7 +258,7 @@ impl Check for C11 {
     }
     fn runs(&self, tier: Tier) -> u64 {
         match tier {
-            Tier::Quick => 2_500,
+            Tier::Quick => 6_000,
             Tier::Thorough => 120_000,
         }
     }
